@@ -398,6 +398,9 @@ type Exec struct {
 	logs   []Value
 
 	sched *scheduler
+	races     []RaceReport
+	harnessFn map[*ssa.Function]bool
+	spawnVC   vclock
 	parseMemo map[string]*parseRes
 	atomicOps int
 	initRunning *ssa.Function
